@@ -8,7 +8,8 @@ from .common import SPEC, Machinery, Verdict, seed, tier as get_tier
 
 GEN = os.path.join(SPEC, "gen")
 VARIANTS = {"core": ("FALSE", "FALSE", "FALSE"), "extras": ("FALSE", "TRUE", "FALSE"), "faults": ("TRUE", "FALSE", "FALSE"),
-            "all": ("TRUE", "TRUE", "FALSE"), "xfer": ("FALSE", "FALSE", "TRUE"), "xfer_extras": ("FALSE", "TRUE", "TRUE")}
+            "all": ("TRUE", "TRUE", "FALSE"), "xfer": ("FALSE", "FALSE", "TRUE"), "xfer_extras": ("FALSE", "TRUE", "TRUE"),
+            "xfer_all": ("TRUE", "TRUE", "TRUE")}
 
 
 def mkcfg(universe, variant, depth, emitidx=True, episodes=False, walks=False):
